@@ -120,13 +120,14 @@ Example C05_cyclic_is_excluded :
 Proof. vm_compute. repeat split; reflexivity. Qed.
 
 (* ---------------------------------------------------------------------------------------------
-   Calls.  PARTIAL (hence the name): for every program both machines accept -- any mix of data with
-   GLOBAL / STACK_GLOBAL / INST / OBJ / NEWOBJ / REDUCE / BINPERSID / BUILD on an object / SETITEM and
-   SETITEMS on an object (one item assignment per pair, finding D22 repaired), any length -- evaluating the decompiled program succeeds, its result unfolds to the same
-   tree as the VM's value, and its event log IS the VM's log: same imports (resolves of builtins are
-   implicit in Python), same callee and arguments for every call, same persistent ids, same state
-   applied to the same object, same item assignments, in the same order, with opaque results
-   numbered alike -- under the boolean side conditions
+   Calls.  For every program both machines accept -- any mix of data with GLOBAL / STACK_GLOBAL / INST /
+   OBJ / NEWOBJ / NEWOBJ_EX (with its **kwargs dict) / REDUCE / BINPERSID and BUILD / SETITEM / SETITEMS
+   applied to an object or to a global itself (one item assignment per pair, finding D22 repaired), of
+   any length -- evaluating the decompiled program succeeds, its result unfolds to the same tree as the
+   VM's value, and its event log IS the VM's log: same imports (resolves of builtins are implicit in
+   Python), same callee, arguments and keyword-argument dict for every call, same persistent ids, same
+   state applied to the same object, same item assignments, in the same order, with opaque results
+   numbered alike -- under the two boolean side conditions that stand for the two known findings:
      defined_before_use n f   every statement of the decompiled program prints within depth n and uses
                               only variables assigned / names imported by EARLIER statements: the
                               observable core of finding D15 (a node mutated after an emitted
@@ -134,17 +135,32 @@ Proof. vm_compute. repeat split; reflexivity. Qed.
                               logs rendered against the final heaps this is only visible when the
                               final contents mention a later variable or import), and
      distinct_attr_names      finding D14: same attribute name => same module.
-   MISSING (defined_before_use is false on them, so they are outside the theorem; the differential
-   layer-B tie still covers them):
-     - NEWOBJ_EX with keyword arguments (a call with star-args and double-star keyword arguments),
-     - BUILD / SETITEM(S) applied to a global itself (`_var0 = name`). *)
-Theorem C05_eval_agrees_partial : forall p n f v x,
+   No opcode or statement form that fickling emits is excluded any more (defined_before_use is false
+   only on D15 programs, on programs deeper than n, and on statement forms fickling never emits).
+   Idealisation shared by both models: the "keywords must be strings" check of a ** call is not
+   modelled (RefVM and PyEval both accept any hashable key; CPython raises TypeError on both sides). *)
+Theorem C05_eval_agrees : forall p n f v x,
   run p = Ok f -> vrun p = Ok v -> vstopped v = Some x ->
   defined_before_use n f = true -> distinct_attr_names (log v) = true ->
   exists st r, py_run n p = Ok st /\ presult st = Some r /\
     same_shape n (heap v) (pheap st) x r = true /\
     forallb2 (same_event n (heap v) (pheap st)) (filter visible_event (log v)) (plog st) = true.
 Proof. exact eval_agrees. Qed.
+
+(* NEWOBJ_EX with keyword arguments, and BUILD / SETITEM applied to a global itself *)
+Example C05_eval_agrees_kwargs_and_global_alias :
+  let p := [OGlobal "m" "C"; OEmptyTuple; OEmptyDict; OConst (CStr "k"); OEmptyList; OSetItem; ONewObjEx;
+            OPop; OGlobal "__builtin__" "eval"; OConst CNone; OBuild; OConst (CInt 1); OConst (CInt 2);
+            OSetItem; OStop] in
+  match run p, vrun p, py_run 5 p with
+  | Ok f, Ok v, Ok st =>
+      defined_before_use 5 f = true /\ distinct_attr_names (log v) = true /\
+      vstopped v = Some (VGlobal "__builtin__" "eval") /\ presult st = Some (VGlobal "builtins" "eval") /\
+      List.length (log v) = 5 /\ List.length (plog st) = 4 /\
+      forallb2 (same_event 5 (heap v) (pheap st)) (filter visible_event (log v)) (plog st) = true
+  | _, _, _ => False
+  end.
+Proof. vm_compute. repeat split; reflexivity. Qed.
 
 (* non-vacuity: from os import system; _var0 = system('x', [..shared..]); _var1 = _var0;
    _var1.__setstate__({'k': [1]}); result = (_var1, [1]) *)
@@ -204,4 +220,4 @@ Print Assumptions C05_result_denotes_value.
 Print Assumptions C05_plain_data_eval.
 Print Assumptions C05_eval_denotes.
 Print Assumptions C05_vm_wellformed.
-Print Assumptions C05_eval_agrees_partial.
+Print Assumptions C05_eval_agrees.
